@@ -157,7 +157,9 @@ pub const WHITE_SPACE: [char; 25] = [
 /// (ASCII, control, accented and Greek letters, a combining mark, digits of other scripts - and the neighbours and look-alikes of
 /// every non-ASCII character the evaluators do accept: superscript letters and signs next to the superscript digits, subscript
 /// digits, brackets next to the floor / ceiling brackets, ring / ordinal signs next to the degree sign, variants of pi, full-width forms)
-pub const FOREIGN: [char; 48] = ['#', '$', 'x', 'Z', '~', '\u{0}', 'é', 'λ', '√', '\u{0301}', '٣', '𝟙',
+pub const FOREIGN: [char; 60] = ['#', '$', 'x', 'Z', '~', '\u{0}', 'é', 'λ', '√', '\u{0301}', '٣', '𝟙',
+    // characters whose code point ends in the byte of an ASCII symbol of the grammars (+ - * / ^ % ( ) , @ ! .): a cast to u8 aliases them
+    '\u{012B}', '\u{012D}', '\u{012A}', '\u{012F}', '\u{015E}', '\u{0125}', '\u{0128}', '\u{0129}', '\u{012C}', '\u{0140}', '\u{0121}', '\u{012E}',
     '\u{2071}', '\u{2072}', '\u{2073}', '\u{207A}', '\u{207B}', '\u{207F}', '\u{2080}', '\u{2082}', '\u{2089}', '\u{00AA}', '\u{00BA}', '\u{02DA}',
     '\u{2307}', '\u{230C}', '\u{2320}', '\u{27E6}', '\u{3008}', '\u{03A0}', '\u{03D6}', '\u{1D70B}', '\u{FF11}', '\u{FF0B}', '\u{FF08}', '\u{FF09}',
     '\u{2212}', '\u{00D7}', '\u{00F7}', '\u{2215}', '\u{FF20}', '\u{FE6B}', '\u{2032}', '=', '\'', '"', '\\', '\u{7F}'];
